@@ -21,6 +21,10 @@ pub struct Case {
     pub hist: History,
     pub sel: Vec<u16>,
     pub dry_run: bool,
+    /// Optionally one block file is missing before the delete runs (a damaged archive): the
+    /// delete must still not remove anything the kept versions reference.
+    #[serde(default)]
+    pub missing_block: Option<u16>,
 }
 
 fn strategy(_tier: Tier) -> BoxedStrategy<Case> {
@@ -37,8 +41,9 @@ fn strategy(_tier: Tier) -> BoxedStrategy<Case> {
         history_strategy(cfg),
         prop::collection::vec(any::<u16>(), 0..4),
         prop::bool::weighted(0.2),
+        prop::option::weighted(0.15, any::<u16>()),
     )
-        .prop_map(|(hist, sel, dry_run)| Case { hist, sel, dry_run })
+        .prop_map(|(hist, sel, dry_run, missing_block)| Case { hist, sel, dry_run, missing_block })
         .boxed()
 }
 
@@ -81,6 +86,9 @@ fn run(case: &Case, cx: &mut Cx) -> CaseResult {
         .collect();
     requested.sort();
     requested.dedup();
+    if let Some(frac) = case.missing_block {
+        return run_with_missing_block(&w, &requested, frac, cx);
+    }
     let pristine = cx.dir("pristine");
     copy_dir(&w.arch, &pristine);
     let st = St { w: &w, pristine, requested: requested.clone() };
@@ -223,11 +231,121 @@ fn run(case: &Case, cx: &mut Cx) -> CaseResult {
     Ok(())
 }
 
+/// A block file is already missing when the delete runs: every block that is present and
+/// referenced by a kept version must still be there afterwards, and the kept versions must
+/// restore exactly as they did just before the delete.
+fn run_with_missing_block(w: &World, requested: &[u32], frac: u16, cx: &mut Cx) -> CaseResult {
+    let pre0 = format::scan(&w.arch);
+    let blocks: Vec<String> = pre0.blocks.values().filter(|b| b.file_len > 0).map(|b| b.relpath.clone()).collect();
+    if blocks.is_empty() {
+        return Ok(());
+    }
+    let victim = &blocks[(frac as usize * blocks.len()) >> 16];
+    std::fs::remove_file(w.arch.join(victim)).unwrap();
+    let pre = format::scan(&w.arch);
+    let ids: Vec<u32> = pre.bands.keys().copied().collect();
+    let kept: Vec<u32> = ids.iter().copied().filter(|i| !requested.contains(i)).collect();
+    // restores of the kept complete versions before the delete (some may now report errors)
+    let mut before = vec![];
+    for (id, _) in w.complete_bands() {
+        if kept.contains(&id) {
+            let dest = cx.dir("r").join(format!("mb{id}"));
+            let r = ops::restore(&w.arch, &None, &dest, &Sel::Band(id), None, &[], false);
+            before.push((id, crate::tree::snapshot(&dest), r.reported_error()));
+            crate::engine::force_remove(&dest);
+        }
+    }
+    let r = ops::delete_bands(&w.arch, &None, requested, false, false);
+    if let Some(p) = &r.panic {
+        fail!(format!("C05/delete-panic@{}", ops::panic_site(p)), "{p}");
+    }
+    let post = format::scan(&w.arch);
+    if r.result.is_ok() {
+        let referenced = pre.referenced_hashes(kept.iter().copied());
+        for (h, b) in &pre.blocks {
+            if b.file_len > 0 && referenced.contains(h) && !post.blocks.contains_key(h) {
+                fail!(
+                    "C05/referenced-block-removed/archive-with-a-missing-block",
+                    "block {} is referenced by a kept version and was present, but the delete of {requested:?} removed it (another block, {victim}, had been missing beforehand)",
+                    &h[..12]
+                );
+            }
+        }
+    }
+    for (id, snap, reported) in &before {
+        if !post.bands.contains_key(id) {
+            continue;
+        }
+        let dest = cx.dir("r").join(format!("ma{id}"));
+        let r2 = ops::restore(&w.arch, &None, &dest, &Sel::Band(*id), None, &[], false);
+        let diff = crate::tree::first_diff(snap, &crate::tree::snapshot(&dest), crate::tree::CmpOpts { root_meta: false, dir_mtime: false, identity: false, mtime: false });
+        crate::engine::force_remove(&dest);
+        ensure!(
+            diff.is_none() && r2.reported_error() == *reported,
+            "C05/kept-version-changed/archive-with-a-missing-block",
+            "version {id} restored differently after the delete of {requested:?}: {diff:?} ({})",
+            r2.describe()
+        );
+    }
+    cx.add_evals(1);
+    cx.label("missing-block-before-delete");
+    cx.nontrivial = r.result.is_ok() && !kept.is_empty();
+    Ok(())
+}
+
+/// Scale probe: a kept version with more than 10 000 index hunks (see probes.rs).
+fn enumerate(_tier: Tier, idx: u32, of: u32, cx: &mut Cx) -> CaseResult {
+    if !crate::probes::mine(idx, of) {
+        return Ok(());
+    }
+    let (opts, tree) = crate::probes::many_hunks_tree(10_012);
+    let sub = cx.dir("many-hunks");
+    std::fs::create_dir_all(sub.join("r")).unwrap();
+    let mut w = World::new(&sub, &tree);
+    let b = ops::backup(&w.arch, &None, &w.src, opts, &[]);
+    ensure!(!ops::backup_reported_error(&b), "C05/probe-setup", "{}", b.describe());
+    // a second version with one more file, then delete it again
+    std::fs::write(w.src.join("w0").join("zz-new"), b"brand new content of the second version").unwrap();
+    crate::engine::heartbeat();
+    let b = ops::backup(&w.arch, &None, &w.src, opts, &[]);
+    ensure!(!ops::backup_reported_error(&b), "C05/probe-setup", "{}", b.describe());
+    w.bands.insert(0, crate::history::BandState::Complete(tree.clone()));
+    crate::engine::heartbeat();
+    let r = ops::delete_bands(&w.arch, &None, &[1], false, false);
+    ensure!(r.clean(), "C05/probe-many-hunks/delete-error", "{}", r.describe());
+    let post = format::scan(&w.arch);
+    let referenced = post.referenced_hashes([0u32].into_iter());
+    ensure!(
+        post.bands.keys().copied().collect::<Vec<_>>() == vec![0],
+        "C05/probe-many-hunks/wrong-versions-removed",
+        "{:?}",
+        post.bands.keys()
+    );
+    ensure!(
+        post.bands[&0].hunks.len() > 10_000,
+        "C05/harness/probe-too-small",
+        "only {} hunks",
+        post.bands[&0].hunks.len()
+    );
+    if let Some(h) = referenced.iter().find(|h| !post.blocks.contains_key(*h)) {
+        fail!("C05/referenced-block-removed/probe-many-hunks", "block {} referenced by the kept 10 000-hunk version is gone", &h[..12]);
+    }
+    if let Some(h) = post.blocks.keys().find(|h| !referenced.contains(*h)) {
+        fail!("C05/unreferenced-block-remains/probe-many-hunks", "block {} is unreferenced but still present", &h[..12]);
+    }
+    crate::engine::heartbeat();
+    let mut n = 0;
+    check_restore(&w, cx, &Sel::Band(0), &tree, 0, "C05/probe-many-hunks/kept-version", &mut n)?;
+    cx.add_evals(1);
+    cx.inner_nontrivial += 1;
+    Ok(())
+}
+
 pub fn prop() -> Prop<Case> {
     Prop {
         id: "C05",
         level: "fault_enumeration",
-        rule: "case = (history of <=8 ops with backups and interrupted backups, subset of the existing versions to delete incl. none and all, dry-run flag) generated by proptest. Fault-free run: on success the version set is exactly before minus S, every remaining complete version restores exactly, the independent scan finds referenced(kept) subset of present and present minus referenced(kept) empty, stats equal the directory diff; dry run or refusal leaves the directory byte-identical. Inner domain enumerated for successful real deletes: every mutating operation of the delete's logged trace as a crash point (storage frozen before it; quick thins to <=40), and every read/list/metadata operation x {other, not-found, permission-denied} as a single injected failure (quick <=40 ops): afterwards every remaining complete version must restore exactly. Non-trivial case = S non-empty and a block is shared between a deleted and a kept version, or a kept version is incomplete; non-trivial inner = any crash point, or a fault on an index file of a kept band; inner values distinct by construction",
+        rule: "case = (history of <=8 ops with backups and interrupted backups, subset of the existing versions to delete incl. none and all, dry-run flag) generated by proptest. Fault-free run: on success the version set is exactly before minus S, every remaining complete version restores exactly, the independent scan finds referenced(kept) subset of present and present minus referenced(kept) empty, stats equal the directory diff; dry run or refusal leaves the directory byte-identical. Inner domain enumerated for successful real deletes: every mutating operation of the delete's logged trace as a crash point (storage frozen before it; quick thins to <=40), and every read/list/metadata operation x {other, not-found, permission-denied} as a single injected failure (quick <=40 ops): afterwards every remaining complete version must restore exactly. Non-trivial case = S non-empty and a block is shared between a deleted and a kept version, or a kept version is incomplete; non-trivial inner = any crash point, or a fault on an index file of a kept band; inner values distinct by construction. 15% of cases instead remove one block file before the delete (a damaged archive): blocks present and referenced by kept versions must survive and kept versions must restore as just before. One fixed scale probe per run: a kept version with 10 015 index hunks beside a version that is deleted",
         assumptions: &[
             "remove_dir_all of a band directory is one atomic transport operation in this model",
             "zero-length block files (leftovers of a killed write) are not counted as blocks",
@@ -235,7 +353,7 @@ pub fn prop() -> Prop<Case> {
         cases: |t| t.pick(120, 3000),
         strategy,
         run,
-        enumerate: None,
+        enumerate: Some(enumerate),
         exhaustive: |_| false,
         max_shrink_iters: 100,
     }
